@@ -652,13 +652,22 @@ func (x *Exec) tokenByteCmp(a, b Value, t types.Type) *Term {
 		return nil
 	}
 	arg := ti.arg
+	var argT types.Type
 	if iv, ok := arg.(*IfaceV); ok && iv != nil {
-		arg = iv.V
+		arg, argT = iv.V, iv.T
 	}
-	if !isStringVal(arg) {
-		return nil
+	if isStringVal(arg) {
+		return mkBool(kb == '"')
 	}
-	return mkBool(kb == '"')
+	// likewise the text of a (non-nil) array begins with '[' and ends with ']'
+	if sl, ok := arg.(*SliceV); ok && sl != nil && argT != nil {
+		if st, ok := argT.Underlying().(*types.Slice); ok {
+			if eb, isB := st.Elem().Underlying().(*types.Basic); !isB || eb.Kind() != types.Uint8 {
+				return mkBool(kb == '[' || kb == ']')
+			}
+		}
+	}
+	return nil
 }
 
 func isStringVal(v Value) bool {
